@@ -890,7 +890,7 @@ def check_C15(run, replay):
                 "the game as written (Game.tla) whenever they are small rationals; the printed utilities, regrets and their "
                 "relations are compared with these values and with the library's evaluation on the independently built "
                 "game; for the unsampled method and exact budgets also with the strategies of Cfr.tla; distinct by "
-                "canonical JSON of (game, argv, document text); action names with quotes and backslashes; every other -o run finds an older, longer result at the destination")
+                "canonical JSON of (game, argv, document text); action names with quotes and backslashes; every other -o run finds an older, longer result at the destination; every option spelled -k v / --name v / --name=v or left out when its value is the documented default; '-' for standard input / output")
     run.assumptions = ["-t 0 with -r 0 (no limit at all) is excluded: it does not terminate by design",
                        "printed strategies with large denominators are evaluated by the library only (instrument validated by C01)"]
     cases, rows = cli_check(run, "c15", 30 if run.tier == "quick" else 100)
